@@ -304,3 +304,31 @@ def expand_fact_texts(func, facts):
             except Exception:  # noqa
                 pass
     return out
+
+
+def nearest_def(func, name, site):
+    """Value of the closest plain assignment ``name = value`` that lexically
+    precedes ``site`` in its own or an enclosing block of ``func`` (flow
+    approximation for straight-line code; None if there is none)."""
+    cur = site
+    while cur is not None and cur is not func:
+        par = getattr(cur, '_parent', None)
+        for fld in ('body', 'orelse', 'finalbody'):
+            blk = getattr(par, fld, None)
+            if isinstance(blk, list) and cur in blk:
+                for st in reversed(blk[:blk.index(cur)]):
+                    if isinstance(st, ast.Assign) and any(
+                            isinstance(t, ast.Name) and t.id == name
+                            for t in st.targets):
+                        return st.value
+        cur = par
+    return None
+
+
+def resolve_near(func, e, site, depth=0):
+    """Follow names to their nearest preceding definition (bounded)."""
+    if isinstance(e, ast.Name) and depth < 4:
+        d = nearest_def(func, e.id, site)
+        if d is not None:
+            return resolve_near(func, d, site, depth + 1)
+    return e
